@@ -28,6 +28,8 @@ from vlib.val import line
 from vlib.compare import diff, Err, exc_kind
 
 ID = 'C09'
+# theorems of this property stated for the object evaluator `Obj.evaluate` (bridge through C02)
+EXTRA_THEOREMS = [('Splipy.Properties.Bridge', 'Splipy/Properties/Bridge.lean', 'Bridge_C09_')]
 RTOL = 1e-9
 ATOL = 1e-11
 RULE = ('objects: pardim 1-3 x dim 2-3, rational (positive weights) or not, open/periodic directions; sequences of 1-5 ops: '
